@@ -60,7 +60,6 @@ def headReasons (key : String) (c : Val) (d : Val) : List String :=
     | .arr (q :: qs) => listReasons (q :: qs) d
     | _ => ["malformed"])
   else if key.startsWith "$" then ["malformed"]
-  else if !keyOk key then ["badkey"]
   else
     (match cands (splitDots key) d with
     | .ok _ => []
@@ -85,7 +84,6 @@ def matchHead (key : String) (c : Val) (d : Val) : R Bool :=
     | _ => .error .opFail)
   else if key = "$expr" then unmodelled
   else if key.startsWith "$" then .error .opFail
-  else if !keyOk key then unmodelled
   else condHolds c (reach (splitDots key) d)
 
 theorem matchFields_cons (key : String) (c : Val) (rest : Fields) (d : Val) :
@@ -181,9 +179,13 @@ theorem logical_agree (nb : Bool) (d : Val) (key : String) (c : Val)
   | .oid _, _, _, hr => simp at hr
   | .doc _, _, _, hr => simp at hr
 
-theorem candsKey_of_keyOk {key : String} (d : Val) (h : keyOk key = true) :
-    candsKey key d = cands (splitDots key) d := by
-  simp [candsKey, keyOk_ne_empty h, h]
+/-- the matcher splits every key at its dots, whatever the components are -/
+theorem candsKey_eq_cands (key : String) (d : Val) :
+    candsKey key d = cands (splitDots key) d := rfl
+
+/-- (kept for the modules that use it; the hypothesis is no longer needed) -/
+theorem candsKey_of_keyOk {key : String} (d : Val) (_h : keyOk key = true) :
+    candsKey key d = cands (splitDots key) d := rfl
 
 theorem head_agree (nb : Bool) (d : Val) (hd : Clean nb d) (key : String) (c : Val)
     (ih : ∀ xs, c = .arr xs → ∀ q, q ∈ xs → Agree nb d q) (hcc : Clean nb c)
@@ -205,29 +207,27 @@ theorem head_agree (nb : Bool) (d : Val) (hd : Clean nb d) (key : String) (c : V
     · simp [hs] at hr
     simp only [hs, Bool.false_eq_true, ↓reduceIte] at hr
     have hs' : key.startsWith "$" = false := by simpa using hs
-    by_cases hko : keyOk key = true
-    · simp only [hko, Bool.not_true, Bool.false_eq_true, ↓reduceIte, List.append_eq_nil_iff] at hr
-      obtain ⟨hr1, hr2⟩ := hr
-      have hck : candsKey key d = .ok (reach (splitDots key) d) := by
-        rw [candsKey_of_keyOk d hko]
-        cases hcd : cands (splitDots key) d with
-        | error e => simp [hcd] at hr1
-        | ok cs' => rw [cands_eq_reach _ _ _ hcd]
-      have hcs : CandsAll (Clean nb) (reach (splitDots key) d) := by
-        intro cnd hm v hv; subst hv
-        exact reach_hered (hered_clean nb) _ d hd v hm
-      obtain ⟨b, h1, h2⟩ := cond_spec nb c key d _ hck hr2 hcc hcs
-      have n1 : key ≠ "$not" := ne_of_not_dollar hs' (by decide +kernel)
-      have n2 : key ≠ "$expr" := ne_of_not_dollar hs' (by decide +kernel)
-      have n3 : key ≠ "$text" := ne_of_not_dollar hs' (by decide +kernel)
-      have n4 : key ≠ "$where" := ne_of_not_dollar hs' (by decide +kernel)
-      have n5 : key ≠ "$jsonSchema" := ne_of_not_dollar hs' (by decide +kernel)
-      refine ⟨b, ?_, ?_⟩
-      · simp [applyHead, hcm, logicalKeys, topLevelOperators, hl.1, hl.2.1, hl.2.2, n1, n2, n3, n4, n5,
-          Ne.symm hl.1, Ne.symm hl.2.1, Ne.symm hl.2.2, Ne.symm n1, Ne.symm n2, Ne.symm n3, Ne.symm n4,
-          Ne.symm n5, hs', h1]
-      · simp [matchHead, hcm, hl.1, hl.2.1, hl.2.2, n2, hs', hko, h2]
-    · simp [hko] at hr
+    simp only [List.append_eq_nil_iff] at hr
+    obtain ⟨hr1, hr2⟩ := hr
+    have hck : candsKey key d = .ok (reach (splitDots key) d) := by
+      rw [candsKey_eq_cands]
+      cases hcd : cands (splitDots key) d with
+      | error e => simp [hcd] at hr1
+      | ok cs' => rw [cands_eq_reach _ _ _ hcd]
+    have hcs : CandsAll (Clean nb) (reach (splitDots key) d) := by
+      intro cnd hm v hv; subst hv
+      exact reach_hered (hered_clean nb) _ d hd v hm
+    obtain ⟨b, h1, h2⟩ := cond_spec nb c key d _ hck hr2 hcc hcs
+    have n1 : key ≠ "$not" := ne_of_not_dollar hs' (by decide +kernel)
+    have n2 : key ≠ "$expr" := ne_of_not_dollar hs' (by decide +kernel)
+    have n3 : key ≠ "$text" := ne_of_not_dollar hs' (by decide +kernel)
+    have n4 : key ≠ "$where" := ne_of_not_dollar hs' (by decide +kernel)
+    have n5 : key ≠ "$jsonSchema" := ne_of_not_dollar hs' (by decide +kernel)
+    refine ⟨b, ?_, ?_⟩
+    · simp [applyHead, hcm, logicalKeys, topLevelOperators, hl.1, hl.2.1, hl.2.2, n1, n2, n3, n4, n5,
+        Ne.symm hl.1, Ne.symm hl.2.1, Ne.symm hl.2.2, Ne.symm n1, Ne.symm n2, Ne.symm n3, Ne.symm n4,
+        Ne.symm n5, hs', h1]
+    · simp [matchHead, hcm, hl.1, hl.2.1, hl.2.2, n2, hs', h2]
 
 theorem fields_agree (nb : Bool) (d : Val) (hd : Clean nb d) (fs : Fields)
     (ih : ∀ k v, (k, v) ∈ fs → ∀ xs, v = .arr xs → ∀ q, q ∈ xs → Agree nb d q)
@@ -289,5 +289,61 @@ theorem matches_eq_spec (f d : Val) (h : inD f d = true) :
     · exact agree_all false d ⟨h2, hB'.2⟩ f ⟨h1, hB'.1⟩ hV
   obtain ⟨b, h1, h2⟩ := main
   simp only [filterApplies, specMatches, h1, h2]
+
+/-! ### an unknown operator: the matcher rejects it as the rules do, whatever the key reaches -/
+
+theorem opsHold_unknown (op : String) (sv : Val) (cs : List (Option Val))
+    (hunk : unknownOp op = true) :
+    opsHold [(op, sv)] cs =
+      .error (if notImplementedOperators.contains op then .notImpl else .opFail) := by
+  simp only [unknownOp, operatorMapKeys, List.contains_cons, List.contains_nil, Bool.or_false,
+    Bool.not_eq_true', Bool.and_eq_true, Bool.or_eq_false_iff, beq_eq_false_iff_ne, ne_eq,
+    bne_iff_ne] at hunk
+  obtain ⟨⟨h1, h2, h3, h4, h5, h6, h7, h8, h9, h10, h11, h12, h13, h14⟩, h15⟩ := hunk
+  have hl : leafHolds op sv cs =
+      .error (if notImplementedOperators.contains op then .notImpl else .opFail) := by
+    simp only [leafHolds, h1, h2, h4, h5, h6, h7, h9, h10, h11, h12, h13, h14, ↓reduceIte]
+    split <;> rfl
+  cases sv <;> simp [opsHold, h3, h8, h15, hl, bind, Except.bind]
+
+theorem unknown_single_eq_spec (key op : String) (sv d : Val)
+    (hk : key.startsWith "$" = false) (hop : op.startsWith "$" = true)
+    (hunk : unknownOp op = true) :
+    ∃ e, (e = .opFail ∨ e = .notImpl) ∧
+      filterApplies (.doc [(key, .doc [(op, sv)])]) d = .error e ∧
+      specMatches (.doc [(key, .doc [(op, sv)])]) d = .error e := by
+  have n0 : key ≠ "$comment" := ne_of_not_dollar hk (by decide +kernel)
+  have n1 : key ≠ "$not" := ne_of_not_dollar hk (by decide +kernel)
+  have n2 : key ≠ "$expr" := ne_of_not_dollar hk (by decide +kernel)
+  have n3 : key ≠ "$text" := ne_of_not_dollar hk (by decide +kernel)
+  have n4 : key ≠ "$where" := ne_of_not_dollar hk (by decide +kernel)
+  have n5 : key ≠ "$jsonSchema" := ne_of_not_dollar hk (by decide +kernel)
+  have n6 : key ≠ "$and" := ne_of_not_dollar hk (by decide +kernel)
+  have n7 : key ≠ "$or" := ne_of_not_dollar hk (by decide +kernel)
+  have n8 : key ≠ "$nor" := ne_of_not_dollar hk (by decide +kernel)
+  have hops : isOpsFilter (.doc [(op, sv)]) = true := by simp [isOpsFilter, hop]
+  have hopt : ((dkeys [(op, sv)]).contains "$options" && (dkeys [(op, sv)]).contains "$regex") = false := by
+    by_cases h : op = "$options"
+    · subst h; simp [dkeys]
+    · simp [dkeys, Ne.symm h]
+  have hchk : checkUnknownOps (dkeys [(op, sv)]) =
+      .error (if notImplementedOperators.contains op then .notImpl else .opFail) := by
+    have hu : (!(operatorMapKeys.contains op) && op != "$not") = true := hunk
+    simp only [checkUnknownOps, dkeys, List.map_cons, List.map_nil, List.filter_cons, hu, ↓reduceIte,
+      List.filter_nil, List.isEmpty_cons, Bool.false_eq_true, List.any_cons, List.any_nil,
+      Bool.or_false]
+    split <;> rfl
+  refine ⟨if notImplementedOperators.contains op then .notImpl else .opFail, ?_, ?_, ?_⟩
+  · split <;> simp
+  · have ha := applyKey_check_err [(op, sv)] key d _ hops hopt hchk
+    simp only [filterApplies, applyVal]
+    rw [applyFields_cons]
+    simp [applyHead, n0, logicalKeys, topLevelOperators, n1, n2, n3, n4, n5, n6, n7, n8,
+      Ne.symm n1, Ne.symm n2, Ne.symm n3, Ne.symm n4, Ne.symm n5, Ne.symm n6, Ne.symm n7,
+      Ne.symm n8, hk, ha, bind, Except.bind]
+  · simp only [specMatches, matchVal]
+    rw [matchFields_cons]
+    simp [matchHead, n0, n2, n6, n7, n8, hk, condHolds, isOps, hop, opsHold_unknown op sv _ hunk,
+      bind, Except.bind]
 
 end MongoModel.Proofs.C01Lemmas
